@@ -41,7 +41,8 @@ def sized(alphabet, limit, first=None):
 
 nick_s = sized(TOKEN, proto.NICKLEN, first=string.ascii_letters)
 user_s = sized(TOKEN + "~", proto.USERLEN, first=string.ascii_letters + "~")
-ident_s = sized(TOKEN + "~", proto.USERLEN, first=string.ascii_letters + "~")
+_ident_plain = sized(TOKEN + "~", proto.USERLEN, first=string.ascii_letters + "~")
+ident_s = st.one_of(_ident_plain, _ident_plain, _ident_plain, _ident_plain.map(lambda t: "~" + t[1:] if len(t) > 1 else "~"))
 host_s = sized(HOSTCH, proto.HOSTLEN, first=string.ascii_lowercase)
 real_s = sized(TEXT, proto.REALLEN)
 acct_s = sized(string.ascii_letters + string.digits + "-_", 20, first=string.ascii_letters)
@@ -141,8 +142,12 @@ def conf_s(draw, pid, tier):
     services = [[n, draw(st.sampled_from(protos))] for n in names]
     timeout = draw(st.sampled_from([0, 30, 30]))
     rules = []
-    if draw(st.integers(0, 3)) == 0:
+    k = draw(st.integers(0, 5))
+    if k == 0:
         rules = [["r1", {"class": "c1", "hostname": "*.example.org"}], ["r2", {"class": "c2"}]]
+    elif k == 1:
+        # rules that upgrade an untrusted (~) ident to the claimed user name at acceptance time
+        rules = [["r1", {"class": "c1", "hostname": "*.example.org", "trust_username": "yes"}], ["r2", {"class": "c2", "trust_username": "true"}]]
     return {"modules": mods, "services": services, "timeout": timeout, "rules": rules,
             "logs": [["*.>=info", "file:iauthd.log"]]}
 
